@@ -184,6 +184,21 @@ example : ∃ s, (newLimiter 2).run [.submit (.panic 7), .adv 0, .adv 0, .adv 0,
   refine ⟨_, rfl, ?_⟩
   decide
 
+/-- `c19_limiters_independent` (several Limiters at once): in a script that drives several
+Limiters alternately, an op addressed to Limiter `i` is exactly the single-limiter op on
+machine `i` (`playOp`), and every other machine is left untouched — `Limiter` values share no
+state (fact `limiterFields`: channel, WaitGroup, handler, all per value; no package-level
+variable is touched by `Go`/`Wait`/`add`/`done`), so each Limiter of the script satisfies
+all theorems of this file on its own. -/
+theorem c19_limiters_independent (ps : List Player) (idx : String) (i : Nat) (p : Player)
+    (rest : List String) (hidx : idx.toNat? = some i) (hp : ps[i]? = some p) :
+    (playMultiOp ps (idx :: rest)).2 = (playOp p rest).2 ∧
+    (playMultiOp ps (idx :: rest)).1[i]? = some (playOp p rest).1 ∧
+    ∀ j, j ≠ i → (playMultiOp ps (idx :: rest)).1[j]? = ps[j]? := by
+  have hlen : i < ps.length := (List.getElem?_eq_some_iff.1 hp).1
+  simp only [playMultiOp, hidx, hp]
+  exact ⟨trivial, List.getElem?_set_self hlen, fun j hj => List.getElem?_set_ne (Ne.symm hj)⟩
+
 /-- `c19_recover` (the exported `Recover(fn, panicFn, cleanups...)` used directly; anchor
 "converts a panic into a handler call and then runs the cleanups even if a cleanup
 panics"), for every outcome of `fn` and every list of cleanups:
